@@ -2,12 +2,12 @@ SPECIFICATION Spec
 CONSTANTS
   N = 48
   Grans = {4, 8, 12, 16}
-  Bufs = {16, 40}
+  Bufs = {6, 14, 40}
   Addrs = {0, 4, 12, 16}
   Sizes = {0, 3, 8, 12, 16, 24, 32}
   MaxReqs = 2
   Grans2 = {4, 16}
-  Bufs2 = {16}
+  Bufs2 = {6, 16}
   Addrs2 = {0, 16}
   Sizes2 = {16}
 INVARIANT TypeOK
